@@ -77,21 +77,21 @@ def build(case, derived, seed):
   return A, a
 
 
-def routine(case):
+def routine(case, num_iters=100):
   import jax
   import jax.numpy as jnp
   from precondition import distributed_shampoo as ds
-  key = (case["method"], case["rel"], case["k"], case["ps"] >= 0, case["n"])
+  key = (case["method"], case["rel"], case["k"], case["ps"] >= 0, case["n"], num_iters)
   if key not in _JIT:
     if len(_JIT) >= 250:
       _JIT.clear()
       jax.clear_caches()
-    method, rel, k, hasps, _ = key
+    method, rel, k, hasps, _, _ = key
 
     def f(A, p, eps, ps):
       X, mt = ds.matrix_inverse_pth_root(
           A, p, ridge_epsilon=eps, relative_matrix_epsilon=rel, lobpcg_topk_precondition=k,
-          padding_start=ps if hasps else None, eigh=(method == "eigh"))
+          padding_start=ps if hasps else None, eigh=(method == "eigh"), num_iters=num_iters)
       return X, (mt.inverse_pth_root_errors, mt.max_eigen_value, mt.total_retries,
                  mt.inverse_pth_root_iters, mt.final_error_ratio)
     _JIT[key] = jax.jit(f)
@@ -190,7 +190,7 @@ def handle(job):
     raise RuntimeError("case dtype does not match the worker's x64 setting")
   A = A.astype(fdt)
   try:
-    f = routine(case)
+    f = routine(case, int(job.get("num_iters", 100)))
     X, mt = f(jnp.asarray(A), jnp.asarray(case["p"], jnp.int32),
               jnp.asarray(10.0 ** -case["eexp"], fdt), jnp.asarray(max(case["ps"], 0), jnp.int32))
     X = np.asarray(X)
